@@ -463,50 +463,42 @@ Qed.
 Lemma frac_ok_none U : frac_ok [] U 0.
 Proof. left. split; reflexivity. Qed.
 
+Lemma comp_ok_intro w fr ub U m :
+  0 <= w -> frac_ok fr U m -> unit_ok ub U -> w * U + m <= two63 -> comp_ok (mkc w fr ub U m).
+Proof. intros Hw Hfr Hub Hv. unfold comp_ok, comp_val. cbn [cw cfr cub cU cm]. tauto. Qed.
+
+Ltac comp_tac :=
+  apply comp_ok_intro;
+  [lia | first [apply frac_ok_none | assumption] | unfold unit_ok; tauto | rewrite two63_val; lia].
+Ltac comps_tac := repeat (apply Forall_cons; [comp_tac|]); apply Forall_nil.
+Ltac flat_tac := unfold flat; cbn [flat_map]; unfold comp_bytes; cbn [cw cfr cub app]; rewrite app_nil_r; reflexivity.
+Ltac total_tac := cbn [total]; unfold comp_val; cbn [cw cU cm]; lia.
+
 Lemma dur_body_comps u : 0 <= u <= two63 ->
   exists cs, dur_body u = flat cs /\ Forall comp_ok cs /\ total cs = u /\ cs <> [].
 Proof.
   intros Hu. rewrite two63_val in Hu. unfold dur_body.
   destruct (u <? 1000000000) eqn:E1.
   - destruct (u =? 0) eqn:E0.
-    { exists [mkc 0 [] unit_s 1000000000 0]. split; [reflexivity|].
-      split; [|split; [cbn; lia|discriminate]].
-      repeat constructor; cbn [cw cfr cub cU cm]; try lia.
-      - apply frac_ok_none.
-      - unfold unit_ok. tauto.
-      - unfold comp_val. cbn [cw cU cm]. rewrite two63_val. lia. }
+    { exists [mkc 0 [] unit_s 1000000000 0].
+      split; [reflexivity|]. split; [comps_tac|]. split; [total_tac|discriminate]. }
     destruct (u <? 1000) eqn:E2.
     { change (fmt_frac u 0) with (@nil N, u). cbv iota beta.
       exists [mkc u [] unit_ns 1 0].
-      split; [unfold flat; cbn [flat_map comp_bytes cw cfr cub]; rewrite app_nil_r; reflexivity|].
-      split; [|split; [cbn [total comp_val cw cU cm]; lia|discriminate]].
-      repeat constructor; cbn [cw cfr cub cU cm]; try lia.
-      - apply frac_ok_none.
-      - unfold unit_ok. tauto.
-      - unfold comp_val. cbn [cw cU cm]. rewrite two63_val. lia. }
+      split; [flat_tac|]. split; [comps_tac|]. split; [total_tac|discriminate]. }
     destruct (u <? 1000000) eqn:E3.
     { destruct (fmt_frac_spec u 3 ltac:(lia)) as (fr & Hfr & Hok). rewrite Hfr.
       change (pow10 3) with 1000 in *.
       pose proof (Z.div_mod u 1000 ltac:(lia)) as Hdm.
       pose proof (Z.mod_pos_bound u 1000 ltac:(lia)) as Hmb.
       exists [mkc (u / 1000) fr unit_micro 1000 (u mod 1000)].
-      split; [unfold flat; cbn [flat_map comp_bytes cw cfr cub]; rewrite app_nil_r; reflexivity|].
-      split; [|split; [cbn [total comp_val cw cU cm]; lia|discriminate]].
-      repeat constructor; cbn [cw cfr cub cU cm]; try lia.
-      - assumption.
-      - unfold unit_ok. tauto.
-      - unfold comp_val. cbn [cw cU cm]. rewrite two63_val. lia. }
+      split; [flat_tac|]. split; [comps_tac|]. split; [total_tac|discriminate]. }
     { destruct (fmt_frac_spec u 6 ltac:(lia)) as (fr & Hfr & Hok). rewrite Hfr.
       change (pow10 6) with 1000000 in *.
       pose proof (Z.div_mod u 1000000 ltac:(lia)) as Hdm.
       pose proof (Z.mod_pos_bound u 1000000 ltac:(lia)) as Hmb.
       exists [mkc (u / 1000000) fr unit_ms 1000000 (u mod 1000000)].
-      split; [unfold flat; cbn [flat_map comp_bytes cw cfr cub]; rewrite app_nil_r; reflexivity|].
-      split; [|split; [cbn [total comp_val cw cU cm]; lia|discriminate]].
-      repeat constructor; cbn [cw cfr cub cU cm]; try lia.
-      - assumption.
-      - unfold unit_ok. tauto.
-      - unfold comp_val. cbn [cw cU cm]. rewrite two63_val. lia. }
+      split; [flat_tac|]. split; [comps_tac|]. split; [total_tac|discriminate]. }
   - destruct (fmt_frac_spec u 9 ltac:(lia)) as (fr & Hfr & Hok). rewrite Hfr.
     change (pow10 9) with 1000000000 in *.
     pose proof (Z.div_mod u 1000000000 ltac:(lia)) as Hdm.
@@ -525,21 +517,253 @@ Proof.
     + destruct (0 <? hh) eqn:E3.
       * exists [mkc hh [] unit_h 3600000000000 0; mkc ms [] unit_m 60000000000 0;
                 mkc ss fr unit_s 1000000000 m9].
-        split; [unfold flat; cbn [flat_map comp_bytes cw cfr cub app]; rewrite app_nil_r; reflexivity|].
-        split; [|split; [cbn [total comp_val cw cU cm]; lia|discriminate]].
-        repeat constructor; cbn [cw cfr cub cU cm]; try lia;
-          try apply frac_ok_none; try assumption; try (unfold unit_ok; tauto);
-          unfold comp_val; cbn [cw cU cm]; rewrite two63_val; lia.
+        split; [flat_tac|]. split; [comps_tac|]. split; [total_tac|discriminate].
       * exists [mkc ms [] unit_m 60000000000 0; mkc ss fr unit_s 1000000000 m9].
-        split; [unfold flat; cbn [flat_map comp_bytes cw cfr cub app]; rewrite app_nil_r; reflexivity|].
-        split; [|split; [cbn [total comp_val cw cU cm]; lia|discriminate]].
-        repeat constructor; cbn [cw cfr cub cU cm]; try lia;
-          try apply frac_ok_none; try assumption; try (unfold unit_ok; tauto);
-          unfold comp_val; cbn [cw cU cm]; rewrite two63_val; lia.
+        split; [flat_tac|]. split; [comps_tac|]. split; [total_tac|discriminate].
     + exists [mkc ss fr unit_s 1000000000 m9].
-      split; [unfold flat; cbn [flat_map comp_bytes cw cfr cub app]; rewrite app_nil_r; reflexivity|].
-      split; [|split; [cbn [total comp_val cw cU cm]; lia|discriminate]].
-      repeat constructor; cbn [cw cfr cub cU cm]; try lia;
-        try apply frac_ok_none; try assumption; try (unfold unit_ok; tauto);
-        unfold comp_val; cbn [cw cU cm]; rewrite two63_val; lia.
+      split; [flat_tac|]. split; [comps_tac|]. split; [total_tac|discriminate].
 Qed.
+
+(* ---------------------------------------------------------------- parse_duration_bytes *)
+
+Definition sign_split (s : bytes) : bool * bytes :=
+  match s with
+  | 45%N :: r => (true, r)
+  | 43%N :: r => (false, r)
+  | _ => (false, s)
+  end.
+
+Definition pd_tail (neg : bool) (s1 : bytes) : option Z :=
+  match s1 with
+  | [] => None
+  | [48%N] => Some 0
+  | _ =>
+    match parse_loop (length s1) s1 0 with
+    | None => None
+    | Some d => if neg then Some (- d) else if two63 - 1 <? d then None else Some d
+    end
+  end.
+
+Lemma parse_duration_bytes_eq s :
+  parse_duration_bytes s = let '(neg, s1) := sign_split s in pd_tail neg s1.
+Proof. reflexivity. Qed.
+
+Lemma sign_split_digit c r : is_digit c = true -> sign_split (c :: r) = (false, c :: r).
+Proof.
+  intros Hc. apply is_digit_range in Hc.
+  assert (H : (c = 48 \/ c = 49 \/ c = 50 \/ c = 51 \/ c = 52 \/ c = 53 \/ c = 54 \/ c = 55
+               \/ c = 56 \/ c = 57)%N) by lia.
+  destruct H as [->|[->|[->|[->|[->|[->|[->|[->|[->| ->]]]]]]]]]; reflexivity.
+Qed.
+
+Lemma pd_tail_two neg c1 c2 r :
+  pd_tail neg (c1 :: c2 :: r) =
+  match parse_loop (length (c1 :: c2 :: r)) (c1 :: c2 :: r) 0 with
+  | None => None
+  | Some d => if neg then Some (- d) else if two63 - 1 <? d then None else Some d
+  end.
+Proof.
+  unfold pd_tail. destruct c1 as [|p]; [reflexivity|].
+  do 6 (try (destruct p as [p|p|]; try reflexivity)).
+Qed.
+
+Lemma parse_dur_body u : 0 <= u <= two63 ->
+  exists c1 c2 r, dur_body u = c1 :: c2 :: r /\ is_digit c1 = true /\ okstr (dur_body u)
+    /\ forall neg, pd_tail neg (dur_body u) =
+                   if neg then Some (- u) else if two63 - 1 <? u then None else Some u.
+Proof.
+  intros Hu. destruct (dur_body_comps u Hu) as (cs & E & Hcs & Ht & Hne).
+  rewrite E.
+  destruct cs as [|c cs]; [contradiction|].
+  inversion Hcs as [|c' cs' Hc Hcs']; subst c' cs'.
+  pose proof (flat_length (c :: cs) Hcs) as Hlen.
+  pose proof (flat_okstr (c :: cs) Hcs) as Hok.
+  pose proof (parse_comps (c :: cs) (length (flat (c :: cs))) 0 Hcs Hlen ltac:(lia) ltac:(lia)) as Hp.
+  destruct (comp_bytes_shape c (flat_map comp_bytes cs) Hc) as (c1 & c2 & r & E2 & Hd).
+  assert (EF : flat (c :: cs) = c1 :: c2 :: r) by exact E2.
+  rewrite EF in *.
+  exists c1, c2, r. split; [reflexivity|]. split; [assumption|]. split; [assumption|].
+  intros neg. rewrite pd_tail_two, Hp, Ht. reflexivity.
+Qed.
+
+Theorem duration_roundtrip_bytes :
+  forall d : Z, (- two63 <= d < two63)%Z -> parse_duration_bytes (duration_bytes d) = Some d.
+Proof.
+  intros d Hd. rewrite parse_duration_bytes_eq. unfold duration_bytes.
+  destruct (d <? 0) eqn:E.
+  - destruct (parse_dur_body (- d) ltac:(lia)) as (c1 & c2 & r & _ & _ & _ & Hp).
+    change (sign_split (45%N :: dur_body (- d))) with (true, dur_body (- d)).
+    cbv iota beta. rewrite Hp. f_equal. lia.
+  - destruct (parse_dur_body d ltac:(lia)) as (c1 & c2 & r & E1 & Hc1 & _ & Hp).
+    rewrite E1 at 1. rewrite sign_split_digit by assumption. rewrite <- E1.
+    cbv iota beta. rewrite Hp.
+    destruct (two63 - 1 <? d) eqn:E2; [lia|reflexivity].
+Qed.
+
+(* ---------------------------------------------------------------- runes, ToLower, TrimSpace *)
+
+Lemma utf8_dec_shorter s r ok rest :
+  utf8_dec s = Some (r, ok, rest) -> (length rest < length s)%nat.
+Proof.
+  unfold utf8_dec. intros H.
+  destruct s as [|b0 [|b1 [|b2 [|b3 t]]]]; [discriminate| | | |];
+    repeat match type of H with
+           | context [if ?b then _ else _] => destruct b
+           end;
+    inversion H; subst; cbn [length]; lia.
+Qed.
+
+Lemma runes_f_nil fuel : runes_f fuel [] = [].
+Proof. destruct fuel; reflexivity. Qed.
+
+Lemma runes_f_fuel n : forall s f1 f2,
+  (length s <= n)%nat -> (length s <= f1)%nat -> (length s <= f2)%nat -> runes_f f1 s = runes_f f2 s.
+Proof.
+  induction n as [|n IH]; intros s f1 f2 Hn H1 H2.
+  - destruct s; [|cbn [length] in Hn; lia]. rewrite !runes_f_nil. reflexivity.
+  - destruct s as [|b s']; [rewrite !runes_f_nil; reflexivity|].
+    destruct f1 as [|f1]; [cbn [length] in H1; lia|].
+    destruct f2 as [|f2]; [cbn [length] in H2; lia|].
+    cbn [runes_f]. destruct (utf8_dec (b :: s')) as [[[r ok] rest]|] eqn:E; [|reflexivity].
+    apply utf8_dec_shorter in E. f_equal. apply IH; lia.
+Qed.
+
+Lemma runes_ascii c s : (c <? 128)%N = true -> runes (c :: s) = (c, true) :: runes s.
+Proof.
+  intros Hc. unfold runes. cbn [length runes_f]. unfold utf8_dec. rewrite Hc. reflexivity.
+Qed.
+
+Lemma runes_micro s : runes (194%N :: 181%N :: s) = (181%N, true) :: runes s.
+Proof.
+  unfold runes.
+  change (runes_f (length (194%N :: 181%N :: s)) (194%N :: 181%N :: s))
+    with ((181%N, true) :: runes_f (S (length s)) s).
+  f_equal. apply (runes_f_fuel (length s)); lia.
+Qed.
+
+Lemma okb_facts c : okb c = true ->
+  (c <? 128)%N = true /\ lower_rune (fun x => x) c = c /\ is_space c = false
+  /\ enc_rune c = [c] /\ utf8_enc c = [c].
+Proof.
+  unfold okb, lower_rune, enc_rune, is_scalar, utf8_enc. intros H.
+  assert (H1 : (c <? 128)%N = true) by lia.
+  assert (H2 : in_range 65 90 c = false) by lia.
+  assert (H3 : is_space c = false) by lia.
+  rewrite H1, H2, H3. assert (H4 : (c <? 55296)%N = true) by lia. rewrite H4.
+  cbn [orb]. repeat split; reflexivity.
+Qed.
+
+Lemma lower_rune_ascii lr c : (c <? 128)%N = true -> lower_rune lr c = lower_rune (fun x => x) c.
+Proof. intros H. unfold lower_rune. rewrite H. reflexivity. Qed.
+
+Lemma to_lower_ok lr s : lr 181%N = 181%N -> okstr s -> to_lower lr s = s.
+Proof.
+  intros Hlr Hs. unfold to_lower.
+  induction Hs as [|c s Hc Hs IH|s Hs IH].
+  - reflexivity.
+  - destruct (okb_facts c Hc) as (H1 & H2 & H3 & H4 & H5).
+    rewrite runes_ascii by assumption. cbn [flat_map fst].
+    rewrite lower_rune_ascii by assumption. rewrite H2, H4, IH. reflexivity.
+  - rewrite runes_micro. cbn [flat_map fst].
+    change (lower_rune lr 181%N) with (lr 181%N). rewrite Hlr, IH. reflexivity.
+Qed.
+
+Lemma runes_nospace s : okstr s -> Forall (fun u => snd u && is_space (fst u) = false) (runes s).
+Proof.
+  induction 1 as [|c s Hc Hs IH|s Hs IH].
+  - constructor.
+  - destruct (okb_facts c Hc) as (H1 & H2 & H3 & H4 & H5).
+    rewrite runes_ascii by assumption. constructor; [cbn [fst snd]; rewrite H3; reflexivity|exact IH].
+  - rewrite runes_micro. constructor; [reflexivity|exact IH].
+Qed.
+
+Lemma sanitize_ok s : okstr s -> flat_map (fun u => utf8_enc (fst u)) (runes s) = s.
+Proof.
+  induction 1 as [|c s Hc Hs IH|s Hs IH].
+  - reflexivity.
+  - destruct (okb_facts c Hc) as (H1 & H2 & H3 & H4 & H5).
+    rewrite runes_ascii by assumption. cbn [flat_map fst]. rewrite H5, IH. reflexivity.
+  - rewrite runes_micro. cbn [flat_map fst]. rewrite IH. reflexivity.
+Qed.
+
+Lemma drop_space_id l : Forall (fun u => snd u && is_space (fst u) = false) l -> drop_space l = l.
+Proof.
+  intros H. destruct H as [|[r ok] t Hu Ht]; [reflexivity|].
+  cbn [drop_space]. cbn [fst snd] in Hu. rewrite Hu. reflexivity.
+Qed.
+
+Lemma trim_space_ok s : okstr s -> trim_space s = s.
+Proof.
+  intros Hs. unfold trim_space. pose proof (runes_nospace s Hs) as Hn.
+  rewrite (drop_space_id _ Hn).
+  rewrite (drop_space_id (rev (runes s))) by (apply Forall_rev; exact Hn).
+  rewrite rev_involutive. apply sanitize_ok. exact Hs.
+Qed.
+
+Lemma duration_bytes_okstr d : - two63 <= d < two63 ->
+  okstr (duration_bytes d) /\ exists c r, duration_bytes d = c :: r /\ (c = 45%N \/ is_digit c = true).
+Proof.
+  intros Hd. unfold duration_bytes. destruct (d <? 0) eqn:E.
+  - destruct (parse_dur_body (- d) ltac:(lia)) as (c1 & c2 & r & _ & _ & Hok & _).
+    split; [apply ok_ascii; [reflexivity|exact Hok]|].
+    eexists; eexists; split; [reflexivity|left; reflexivity].
+  - destruct (parse_dur_body d ltac:(lia)) as (c1 & c2 & r & E1 & Hc1 & Hok & _).
+    split; [exact Hok|]. rewrite E1. eexists; eexists; split; [reflexivity|right; exact Hc1].
+Qed.
+
+Lemma duration_bytes_lower_trim :
+  forall (lr : N -> N) (d : Z), lr 181%N = 181%N -> (- two63 <= d < two63)%Z ->
+    trim_space (to_lower lr (duration_bytes d)) = duration_bytes d.
+Proof.
+  intros lr d Hlr Hd. destruct (duration_bytes_okstr d Hd) as [Hok _].
+  rewrite to_lower_ok by assumption. apply trim_space_ok. exact Hok.
+Qed.
+
+Theorem duration_roundtrip :
+  forall (lr : N -> N) (d : Z), lr 181%N = 181%N -> (- two63 <= d < two63)%Z ->
+    read_last lr (duration_bytes d) = Some (d, false).
+Proof.
+  intros lr d Hlr Hd. unfold read_last. rewrite duration_bytes_lower_trim by assumption.
+  rewrite duration_roundtrip_bytes by assumption.
+  destruct (duration_bytes_okstr d Hd) as [_ (c & r & -> & Hc)].
+  assert (Hn : (c =? 110)%N = false).
+  { destruct Hc as [->|Hc]; [reflexivity|]. apply is_digit_range in Hc. lia. }
+  unfold lit_never. cbn [bytes_eqb]. rewrite Hn. reflexivity.
+Qed.
+
+Theorem never_roundtrip :
+  forall (lr : N -> N), read_last lr [78; 101; 118; 101; 114]%N = Some (dur_999h, true)
+                     /\ read_last lr [] = Some (dur_999h, true).
+Proof. intros lr. split; reflexivity. Qed.
+
+(* ---------------------------------------------------------------- string form *)
+
+Lemma okstr_bytes s : okstr s -> Forall (fun b => (b < 256)%N) s.
+Proof.
+  induction 1 as [|c s Hc Hs IH|s Hs IH].
+  - constructor.
+  - constructor; [|exact IH]. destruct (okb_facts c Hc) as (H1 & _). lia.
+  - constructor; [lia|]. constructor; [lia|exact IH].
+Qed.
+
+Lemma bytes_of_str l : Forall (fun b => (b < 256)%N) l -> bytes_of (str l) = l.
+Proof.
+  induction 1 as [|b l Hb Hl IH]; [reflexivity|].
+  unfold str. cbn [fold_right bytes_of]. fold (str l). rewrite IH, N_ascii_embedding by exact Hb.
+  reflexivity.
+Qed.
+
+Theorem duration_roundtrip_string :
+  forall d : Z, (- two63 <= d < two63)%Z -> parse_duration (duration_string d) = Some d.
+Proof.
+  intros d Hd. unfold parse_duration, duration_string.
+  destruct (duration_bytes_okstr d Hd) as [Hok _].
+  rewrite bytes_of_str by (apply okstr_bytes; exact Hok).
+  apply duration_roundtrip_bytes. exact Hd.
+Qed.
+
+Print Assumptions duration_roundtrip.
+Print Assumptions duration_roundtrip_bytes.
+Print Assumptions duration_bytes_lower_trim.
+Print Assumptions never_roundtrip.
+Print Assumptions duration_roundtrip_string.
